@@ -454,6 +454,15 @@ CORPUS["C09"] += [B("module-level cache written by update()", "R09.8", *GLOBAL_C
                   B("mutable default argument used as a history", "R09.7", *MUT_DEFAULT), E("a local dictionary in update()", *LOCAL_DICT)]
 CORPUS["C11"] += [B("module-level cache written by update()", "R11.9", *GLOBAL_CACHE), E("a local dictionary in update()", *LOCAL_DICT)]
 
+
+PATH_CACHED = [(POLY, "import logging\n", "import functools\nimport logging\n"),
+               (POLY, "    @property\n    def path(self) -> path.Path:", "    @functools.cached_property\n    def path(self) -> path.Path:")]
+PATH_CACHED_OK = PATH_CACHED + [(POLY, "    @points.setter\n    def points(self, points) -> None:\n", "    @points.setter\n    def points(self, points) -> None:\n        self.__dict__.pop(\"path\", None)\n")]
+TRI_STALE = (DEVICE, "        # The cached matplotlib triangulation belongs to the previous mesh.\n        self._triangulation = None\n", "")
+CORPUS["C18"] += [B("Polygon.path cached, points setter does not invalidate", "R18.8", *PATH_CACHED), B("triangulation memo not cleared with the mesh", "R18.8", TRI_STALE),
+                  E("Polygon.path cached and invalidated by the points setter", *PATH_CACHED_OK)]
+CORPUS["C06"] += [B("Polygon.path cached, points setter does not invalidate", "R06.5", *PATH_CACHED), E("Polygon.path cached and invalidated by the points setter", *PATH_CACHED_OK)]
+
 # ---------------------------------------------------------------------------
 # generic behaviour-preserving transformations of the anchor functions
 # ---------------------------------------------------------------------------
